@@ -34,7 +34,7 @@ if prev.get("result"):
                                                    "checks_run": prev.get("checks_run")}]
     for k in ("strengthening",):
         if k in prev: meta[k] = prev[k]
-wt = Path("/tmp/wt-V")
+wt = Path(os.environ.get("VERIF_WT", "/tmp/wt-V"))
 head = subprocess.check_output(["git", "-C", "/repo", "rev-parse", "HEAD"], text=True).strip()
 if not wt.exists():
     subprocess.check_call(["git", "-C", "/repo", "worktree", "add", "-q", "--detach", str(wt), head])
